@@ -54,6 +54,21 @@ def gen_cases(tier, seed, judge=('C07',), n=None, queries=False, longpark_in_qui
                           'policy': rng.choice(('random', 'lazy', 'eager')), 'p': 0.3, 'latency': None, 'txindex': j % 2 == 0,
                           'prefetch': 100, 'n0': rng.choice((10, 16)), 'colls': 0, 'reorg_limit': 5})
     if 'C07' in judge:
+        # the daemon silently moves to a competing branch of the same height; the operator then forces a reorg: the new tip has the
+        # height already notified
+        for j in range(12 if tier == 'quick' else 150):
+            nclients, nscripts = 2, 5
+            script = [('hsub', ci) for ci in range(nclients)] + [('sub', ci, si) for ci in range(nclients) for si in range(nscripts)]
+            script += [('sleep', 12)]
+            for _ in range(rng.randrange(1, 3)):
+                d = rng.randrange(1, 3)
+                script += [('w', 'add'), ('sleep', 6), (rng.choice(('reorg_same', 'same_switch')), d), ('sleep', rng.choice((6, 12))),
+                           ('rpc_reorg', rng.choice((d, d, d + 1)), 'on-stale-branch'), ('sleep', 40)]
+            cases.append({'seed': rng.randrange(1 << 30), 'nclients': nclients, 'nscripts': nscripts, 'judge': list(judge), 'script': script,
+                          'flushkind': 'none', 'flushvec': None, 'policy': rng.choice(('eager', 'lazy', 'random')), 'p': 0.3, 'latency': None,
+                          'txindex': j % 2 == 0, 'prefetch': 100, 'n0': rng.choice((10, 14)), 'colls': 0, 'reorg_limit': 5,
+                          'family': 'same-height-forced'})
+    if 'C07' in judge:
         # a subscription being set up (its history read held) while a block touching the script is indexed and notified
         for j in range(24 if tier == 'quick' else 300):
             nclients, nscripts = rng.choice((1, 1, 2)), 6
